@@ -50,7 +50,7 @@ def detect(pid, tier="quick", stop_first=True):
 if __name__ == "__main__":
     pid, i = sys.argv[1], sys.argv[2]
     checks = sys.argv[3:] or [pid]
-    patch = f"/tmp/seed_{pid}/patch{i}.diff"
+    patch = f"/verif/seeded/{pid}-{i}/patch.diff"
     p = subprocess.run(["git", "-C", "/repo", "apply", patch], capture_output=True, text=True)
     if p.returncode:
         print(json.dumps({"error": p.stderr}))
